@@ -46,9 +46,14 @@ def rotation_case(draw):
             d = np.zeros(3, int)
             d[draw(st.integers(0, 2))] = draw(st.sampled_from([-1, 1, 2]))
         ang = (lambda: draw(st.one_of(st.integers(-20, 20), st.floats(-20, 20, allow_nan=False))))
+        arepr = draw(st.sampled_from(["int-array", "int-list", "int-tuple", "float-array", "int32-array", "int16-array",
+                                      "int8-array"]))
+        # long whole-number axes (the norm range of the statement reaches 1e6) in the narrowest dtype that holds them
+        top = {"int8-array": 100, "int16-array": 30000, "int32-array": 10 ** 6}.get(arepr, 10 ** 6)
+        mag = draw(st.sampled_from([1, 1, 10, 1000, 10 ** 5]))
+        d = np.clip(d * mag, -top, top)
         return {"kind": kind, "axis": [int(v) for v in d], "theta": ang(), "theta2": ang(),
-                "lam": draw(st.sampled_from([2, 3, 10, 0.5])),
-                "axis_repr": draw(st.sampled_from(["int-array", "int-list", "int-tuple", "float-array"]))}
+                "lam": draw(st.sampled_from([2, 3, 10, 0.5])), "axis_repr": arepr}
     if kind == "axis":
         d = np.zeros(3)
         d[draw(st.integers(0, 2))] = draw(st.sampled_from([-1.0, 1.0]))
@@ -75,10 +80,10 @@ def check_rotation(case):
     axis = np.array(case["axis"], dtype=float)
     th, th2, lam = case["theta"], case["theta2"], case["lam"]
     arepr = case.get("axis_repr", "float-array")
-    if arepr == "int-array":
+    if arepr in ("int-array", "int-list"):
         axis = np.array(case["axis"], dtype=np.int64)
-    elif arepr == "int-list":
-        axis = np.array(case["axis"], dtype=np.int64)
+    elif arepr in ("int32-array", "int16-array", "int8-array"):
+        axis = np.array(case["axis"], dtype={"int32-array": np.int32, "int16-array": np.int16, "int8-array": np.int8}[arepr])
     axis_before = axis.copy()
     R = np.asarray(lib("rotation", gaddlemaps.rotation_matrix, axis, th), dtype=float)
     if R.shape != (3, 3) or not np.all(np.isfinite(R)):
@@ -100,7 +105,7 @@ def check_rotation(case):
     R2 = np.asarray(lib("rotation", gaddlemaps.rotation_matrix, axis, th2), dtype=float)
     R12 = np.asarray(lib("rotation", gaddlemaps.rotation_matrix, axis, th + th2), dtype=float)
     need(np.abs(R @ R2 - R12).max(), "rotation-additive", "R(a)R(b) != R(a+b)")
-    Rl = np.asarray(lib("rotation", gaddlemaps.rotation_matrix, axis * lam, th), dtype=float)
+    Rl = np.asarray(lib("rotation", gaddlemaps.rotation_matrix, np.array(case["axis"], dtype=float) * lam, th), dtype=float)
     need(np.abs(Rl - R).max(), "rotation-scale-free", "R(lam*axis) != R(axis)")
     # list input is documented ("list or numpy.ndarray")
     as_list = list(case["axis"]) if arepr != "int-tuple" else tuple(case["axis"])
